@@ -141,17 +141,24 @@ func (l *c17Local) Write(p []byte) (int, error) {
 	return l.Conn.Write(p)
 }
 
-// c17HookGate holds goroutines at the hook point until `need` have arrived or every
-// racer is accounted for (arrived, or returned before the gate opened = refused).
+// c17HookGate holds requests inside the check->record window until `need` of them are
+// there, or every racer is accounted for (inside, or returned while the gate was still
+// closed = refused at the check), or nothing has moved for c17Stall (the remaining
+// racers are blocked on something the code under test holds, e.g. a lock around
+// check+record: a scheduling decision, never a verdict). Every wait is capped.
 type c17HookGate struct {
-	n, need  int32
-	arrived  atomic.Int32
-	early    atomic.Int32
-	atOpen   atomic.Int32
-	open     chan struct{}
-	once     sync.Once
-	timedOut atomic.Bool
+	n, need     int32
+	arrived     atomic.Int32
+	early       atomic.Int32
+	atOpen      atomic.Int32
+	progress    atomic.Int64 // unix nanos of the last arrival / early return
+	open        chan struct{}
+	once        sync.Once
+	timedOut    atomic.Bool
+	stallOpened atomic.Bool
 }
+
+const c17Stall = 4 * time.Millisecond
 
 func c17NewHookGate(n, need int) *c17HookGate {
 	if need > n {
@@ -160,16 +167,22 @@ func c17NewHookGate(n, need int) *c17HookGate {
 	if need < 1 {
 		need = 1
 	}
-	return &c17HookGate{n: int32(n), need: int32(need), open: make(chan struct{})}
+	g := &c17HookGate{n: int32(n), need: int32(need), open: make(chan struct{})}
+	g.progress.Store(time.Now().UnixNano())
+	return g
+}
+
+func (g *c17HookGate) openNow() {
+	g.once.Do(func() {
+		g.atOpen.Store(g.arrived.Load())
+		close(g.open)
+	})
 }
 
 func (g *c17HookGate) maybeOpen() {
 	a := g.arrived.Load()
 	if a >= g.need || a+g.early.Load() >= g.n {
-		g.once.Do(func() {
-			g.atOpen.Store(a)
-			close(g.open)
-		})
+		g.openNow()
 	}
 }
 
@@ -183,12 +196,28 @@ func (g *c17HookGate) isOpen() bool {
 }
 
 func (g *c17HookGate) enter() {
+	if g.isOpen() {
+		return
+	}
 	g.arrived.Add(1)
+	g.progress.Store(time.Now().UnixNano())
 	g.maybeOpen()
-	select {
-	case <-g.open:
-	case <-time.After(c17Watchdog):
-		g.timedOut.Store(true)
+	began := time.Now()
+	for {
+		select {
+		case <-g.open:
+			return
+		case <-time.After(time.Millisecond):
+			if time.Since(time.Unix(0, g.progress.Load())) > c17Stall {
+				g.stallOpened.Store(true)
+				g.openNow()
+				return
+			}
+			if time.Since(began) > c17Watchdog {
+				g.timedOut.Store(true)
+				return
+			}
+		}
 	}
 }
 
@@ -197,6 +226,7 @@ func (g *c17HookGate) enter() {
 func (g *c17HookGate) returned() {
 	if !g.isOpen() {
 		g.early.Add(1)
+		g.progress.Store(time.Now().UnixNano())
 		g.maybeOpen()
 	}
 }
@@ -375,6 +405,9 @@ func c17MapTrial(run *vk.Run, w *c17MapWorld, cs c17MapCase) {
 	if !okBarrier || !resolved || gate.timedOut.Load() || w.ad.timedOut.Load() {
 		run.Count("watchdog", 1)
 		return
+	}
+	if gate.stallOpened.Load() {
+		run.Count("gate_opened_by_stall", 1)
 	}
 	out := c17MapOutcome{Case: cs, Parked: parked, Refused: refused, InWindow: inWin, CounterAfter: w.h.activeConnCount.Load()}
 	run.Eval(1)
